@@ -26,6 +26,7 @@ from fractions import Fraction as F
 import core
 import fracexec
 import s3_util as S3
+import t3_util as T3
 from fracexec import frac_str
 
 MODULE = 'UwgVerif.Props.C14'
@@ -197,10 +198,20 @@ def gen_case(rng, mode=None):
     #  refused: assignments the Building setters must refuse, attempted (under try/except) after construction
     #    and before the step - a refused value must leave no trace in the step
     c['refused'] = ';'.join(rng.sample(REFUSED, rng.choice([0, 1, 2, 3])))
+    #  documented: attributes that the Building docstring documents but that are no input of the step
+    #    (canyon_fraction, msys, FanMax, area_floor, RadF*, Twb, Tdp, copAdj, initial_temp, ...) and the outputs
+    #    of "the previous step" (stale sensWaste, Qhvac, flux*, ...) assigned legal non-default values before the
+    #    step: none / one / some / all of them / all stale outputs.  The model does not see them.
+    c['documented'] = T3.building_documented(rng)
+    #  standinSeed: 0 = the wall / roof / mass / BEMDef stand-ins carry only what the model reads; otherwise they
+    #    carry every attribute Element / BEMDef document (albedo, emissivity, vegcoverage, infra, lat, sens, solAbs,
+    #    aeroCond, T_ext, T_int, flux; Qocc, Nocc, ElecTotal, frac, fl_area, T_wallex, ...) with legal values drawn
+    #    from this seed
+    c['standinSeed'] = rng.choice([0, rng.randint(1, 10 ** 9), rng.randint(1, 10 ** 9)])
     return c
 
 
-STRKEYS = ('cond', 'mode', 'condText', 'condVia', 'copVia', 'refused')
+STRKEYS = ('cond', 'mode', 'condText', 'condVia', 'copVia', 'refused', 'documented')
 
 
 def edge_cases(rng):
@@ -286,13 +297,22 @@ def impl_bem(pkg, c):
     b.indoor_hum = c['indoorHum']
     b.int_heat_f_rad = c['intHeatFRad']
     b.latWaste = c['latWaste0']
+    T3.apply_documented(b, c.get('documented', ''))
     NS = types.SimpleNamespace
     UCM = NS(bldHeight=c['bldHeight'], verToHor=c['verToHor'], bldDensity=c['bldDensity'],
              canTemp=c['canTemp'], canHum=c['canHum'])
-    BEM = NS(wall=NS(layerTemp=[c['tWall'] + 7, c['tWall']], solRec=c['solRec']),
-             roof=NS(layerTemp=[c['tCeil'] - 5, c['tCeil']]),
-             mass=NS(layerTemp=[c['tMass'], c['tMass'] + 3]),
-             swh=c['swh'], elec=c['elec'], light=c['light'], gas=c['gas'])
+    ex = [{}, {}, {}, {}]
+    if c.get('standinSeed'):
+        import random
+        r_ = random.Random(int(c['standinSeed']))
+        ex = [T3.element_extras(r_), T3.element_extras(r_), T3.element_extras(r_), T3.bemdef_extras(r_)]
+        for e_ in ex[:3]:
+            e_.update(sens=rq(r_, -50, 300, 2), solRec=rq(r_, 0, 500, 1))
+        ex[3].update(frac=rq(r_, 0, 1, 20), fl_area=rq(r_, 100, 100000, 1))
+    BEM = NS(**dict(ex[3], wall=NS(**dict(ex[0], layerTemp=[c['tWall'] + 7, c['tWall']], solRec=c['solRec'])),
+                    roof=NS(**dict(ex[1], layerTemp=[c['tCeil'] - 5, c['tCeil']])),
+                    mass=NS(**dict(ex[2], layerTemp=[c['tMass'], c['tMass'] + 3])),
+                    swh=c['swh'], elec=c['elec'], light=c['light'], gas=c['gas']))
     forc = NS(pres=c['pres'], waterTemp=c['waterTemp'])
     parameter = NS(lv=c['lv'], cp=c['cp'], nightSetStart=c['nightSetStart'],
                    nightSetEnd=c['nightSetEnd'])
@@ -498,7 +518,44 @@ CUSTOM_RUNS = [
     ('custom-constructed-Water', 'SGP_Singapore.486980_IWEC.epw', 'initialize_singapore.uwg', 6, None, 0,
      setup_constructed_custom('Water', 4.5, bldtype='lab')),
 ]
+
+
+def setup_custom_documented(values, condtype='AIR', bldtype='studio'):
+    """Half of the stock is a custom reference building (real constructors) whose documented Building attributes
+    were assigned before it was handed in - the hand-over through generate() must keep the step independent of
+    them."""
+    def setup(m, uwg_pkg):
+        bem, sch = S3.constructed_custom(uwg_pkg, condtype=condtype, cop=3.0, coolcap=120.0, bldtype=bldtype)
+        for a, v in values.items():
+            setattr(bem.building, a, v)
+        m.bld = [(bldtype, 'new', 0.5), ('largeoffice', 'pst80', 0.5)]
+        m.ref_bem_vector, m.ref_sch_vector = m._check_reference_data([bem], [sch])
+    return setup
+
+
+def after_dragonfly(extra=None, rows=T3.DF_ROWS):
+    """The per-typology assignment on model.BEM[i] after the stock is computed, as the Dragonfly export does
+    (tests/test_fatal_error.py): floor_height, canyon_fraction, glazing_ratio, shgc, wall / roof albedo, roof
+    vegetation; `extra`: further documented Building attributes."""
+    def after(m, uwg_pkg):
+        T3.dragonfly_typology(m, rows, extra)
+    return after
+
+
+DOC_VALUES = {'canyon_fraction': 0.6, 'msys': 0.02, 'FanMax': 3.5, 'area_floor': 4000.0, 'RadFOcc': 0.3,
+              'LatFOcc': 0.25, 'RadFEquip': 0.4, 'RadFLight': 0.65, 'copAdj': 7.0, 'Twb': 290.0, 'Tdp': 288.0}
+CUSTOM_RUNS += [
+    ('dragonfly-typology-after-generate', 'SGP_Singapore.486980_IWEC.epw', 'initialize_singapore.uwg', 1, None, 0,
+     None, after_dragonfly()),
+    ('custom-constructed-documented-attributes', 'SGP_Singapore.486980_IWEC.epw', 'initialize_singapore.uwg', 1,
+     None, 0, setup_custom_documented(DOC_VALUES), None),
+]
 CUSTOM_RUNS_THOROUGH = [
+    ('dragonfly-typology-toronto-jul-canyon_fraction-0', 'CAN_ON_Toronto.716240_CWEC.epw', 'initialize_toronto.uwg',
+     7, '5A', 0, None, after_dragonfly(dict(DOC_VALUES, canyon_fraction=0.0),
+                                        rows=[(3.5, 0.0, 0.3, 0.4, 0.2, 0.3, 0.0)])),
+    ('custom-water-documented-attributes-jun', 'SGP_Singapore.486980_IWEC.epw', 'initialize_singapore.uwg', 6,
+     None, 1, setup_custom_documented(dict(DOC_VALUES, canyon_fraction=0.1), condtype='water', bldtype='lab'), None),
     ('custom-library-Air-autosize', 'SGP_Singapore.486980_IWEC.epw', 'initialize_singapore.uwg', 6, None, 1,
      setup_library_custom(5.5, 'Air')),
     ('custom-constructed-aIR-toronto-jul', 'CAN_ON_Toronto.716240_CWEC.epw', 'initialize_toronto.uwg', 7, '5A', 0,
@@ -522,7 +579,7 @@ def state_of_building(b, UCM, BEM, forc, parameter, simTime):
         solRec=BEM.wall.solRec, swh=BEM.swh, elec=BEM.elec, light=BEM.light, gas=BEM.gas,
         pres=forc.pres, waterTemp=forc.waterTemp, lv=parameter.lv, cp=parameter.cp,
         nightSetStart=parameter.nightSetStart, nightSetEnd=parameter.nightSetEnd,
-        secDay=simTime.secDay, dt=simTime.dt)
+        secDay=simTime.secDay, dt=simTime.dt, documented=T3.documented_view(b))
 
 
 def live_runs(chk, runs, ndays, on_bem=None, extra_wrappers=None):
@@ -542,6 +599,7 @@ def live_runs(chk, runs, ndays, on_bem=None, extra_wrappers=None):
     for run_ in runs:
         label, epw, par, month, zone, autosize = run_[:6]
         setup = run_[6] if len(run_) > 6 else None
+        after_generate = run_[7] if len(run_) > 7 else None
         epw_p = os.path.join(tests, 'epw', epw)
         par_p = os.path.join(tests, 'parameters', par)
         if not (os.path.exists(epw_p) and os.path.exists(par_p)):
@@ -572,6 +630,8 @@ def live_runs(chk, runs, ndays, on_bem=None, extra_wrappers=None):
                 if setup:
                     setup(m, uwg_pkg)
                 m.generate()
+                if after_generate:
+                    after_generate(m, uwg_pkg)
             except Exception as e:
                 raise core.Infra('live run %s could not be set up: %s: %s' % (
                     label, type(e).__name__, str(e)[:200]))
@@ -617,7 +677,11 @@ def run(chk):
         'Building.BEMCalc~bemCalc', 'C14', pairs,
         rule='fractionised Building.BEMCalc vs Lean `Uwg.Hvac.bemCalc` at Q on building states '
              'steered into every branch; exact equality of 23 attributes (%s) or of the error '
-             'class; indoorRhum (psychrometrics) not compared; non-trivial = non-error result; '
+             'class; indoorRhum (psychrometrics) not compared; the real object additionally carries legal '
+             'non-default values of the documented attributes that are no input of the model (canyon_fraction in '
+             '[0,1], msys, FanMax, area_floor, RadF*, Twb, Tdp, copAdj, initial_temp, stale outputs of a previous '
+             'step), and in two cases of three the wall / roof / mass / BEMDef stand-ins carry every attribute Element '
+             'and BEMDef document; non-trivial = non-error result; '
              'branches = branch measured on the implementation result; %d cases skipped because '
              'psychrometrics raised' % (', '.join(OUT), skipped),
         classify=lambda line, impl: cls[line])
@@ -652,14 +716,24 @@ def run(chk):
                         ('cop!=cop_adj(cop assigned after construction)',
                          c['copVia'] == 'frozen' and c['copNominal'] != c['copAdj']),
                         ('cop!=cop_adj(cop_adj assigned)', c['copVia'] == 'direct' and c['copNominal'] != c['copAdj']),
-                        ('after-refused-assignments', bool(c['refused']))):
+                        ('after-refused-assignments', bool(c['refused'])),
+                        ('canyon_fraction!=1', any(a == 'canyon_fraction' and v != 1 for a, v in
+                                                   T3.parse_documented(c['documented']))),
+                        ('every-documented-passive-attribute-set',
+                         len(T3.parse_documented(c['documented'])) >= len(T3.BUILDING_PASSIVE) + len(T3.BUILDING_STALE)),
+                        ('stale-outputs-of-a-previous-step', any(a in T3.BUILDING_STALE for a, v in
+                                                                 T3.parse_documented(c['documented'])))):
             routes[tag + ':' + c['cond']] = routes.get(tag + ':' + c['cond'], 0) + (1 if on else 0)
     chk.direct('construction-routes(cooling states)', sum(routes.values()), sum(routes.values()),
                'cooling states of the exact tie by the way the real Building object was made: condenser type text in '
                'lower / mixed case (constructor or setter), nominal cop re-assigned after the constructor froze '
                'cop_adj, cop_adj assigned directly, out-of-range assignments to the Building (condtype, cop, coolcap, '
-               'heateff, ratios, ...) refused under try/except before the step - the model and the oracle see the '
-               'meaning only (AIR / WATER, the COP in force, the accepted values)', branches=routes)
+               'heateff, ratios, ...) refused under try/except before the step; every attribute the Building '
+               'docstring documents that is NOT an input of the step (%s) and every output of a previous step (%s) '
+               'assigned a legal non-default value before the step (none / one / some / all of them) - the model '
+               'and the oracle see the meaning only (AIR / WATER, the COP in force, the accepted values), so the '
+               'step may depend on none of these' % (', '.join(T3.PASSIVE_NAMES), ', '.join(T3.BUILDING_STALE)),
+               branches=routes)
     for tag, cnt in routes.items():
         if cnt < 10:
             raise core.Infra('generator no longer builds cooling states via %s often enough (%d)' % (tag, cnt))
@@ -701,7 +775,10 @@ def run(chk):
                    'from outside; same oracle with relative tolerance 1e-9; the custom-* runs simulate a stock with '
                    'a custom reference building (made with the real constructors with condtype "air" / "Water", or '
                    'the shipped largeoffice handed back) whose `cop` was assigned after construction, so that '
-                   'cop != cop_adj' % sorted(done),
+                   'cop != cop_adj; dragonfly-* runs assign floor_height, canyon_fraction (0.5 / 0.8 / 0.25), glazing '
+                   'ratio, shgc, albedos, roof vegetation on model.BEM[i] after generate() as the Dragonfly export '
+                   'does; *-documented-attributes runs hand in a custom building whose documented passive attributes '
+                   '(canyon_fraction, msys, FanMax, area_floor, RadF*, copAdj, Twb, Tdp) were assigned' % sorted(done),
                    mismatches=len(live_bad), branches=live_br)
     chk.measurements['sensWaste_nonneg_hypotheses'] = reference_library_ranges()
     chk.measurements['sensWaste_nonneg_hypotheses']['live_runs'] = hyp
